@@ -19,7 +19,6 @@ HARNESSES = [
     {"name": "update4", "fn": S + "VerifC06Update4", "bounds": "record of <= 4 exchanges", "replay_overlay": RO, "thorough_only": True, "cfg": hcfg(4)},
     {"name": "update8", "fn": S + "VerifC06Update8", "bounds": "record of <= 8 exchanges", "replay_overlay": RO, "thorough_only": True, "cfg": hcfg(8)},
     {"name": "handle4", "fn": S + "VerifC06Handle4", "bounds": "record of <= 4 exchanges", "replay_overlay": RO, "thorough_only": True, "cfg": hcfg(4)},
-    {"name": "handle8", "fn": S + "VerifC06Handle8", "bounds": "record of <= 8 exchanges (the real capacity)", "replay_overlay": RO, "thorough_only": True, "cfg": hcfg(8)},
 ]
 import sys, os
 sys.path.insert(0, os.path.dirname(os.path.dirname(os.path.abspath(__file__))))
@@ -29,5 +28,5 @@ ASSUMPTIONS = ["ntp.Time64FromTime replaced by its summary (exact seconds field,
                "all instants inside NTP era 0 (1970..2036): Time64 Before/After compare raw fields, cross-era behaviour is outside the claim"]
 EXPLANATION = ""
 CLAIMED = True
-LEVEL_TEXT = "Bounded model checking of one inductive step of each of the two real operations (handleRequest, updateTXTimestamp, with the real container/heap and map code) from an arbitrary per-client record satisfying the representation invariant, an arbitrary request, arbitrary receive stamp and clock readings: every obligation (reply fields in basic and interleaved mode, uniqueness of receive stamps, recording/dropping of transmit stamps, isolation of other clients, absence of panics, loop unwinding) is decided by SMT. Records are bounded to 2 (quick) / 8 (thorough, the real capacity) exchanges."
-LEVEL_NOTE = "Time64FromTime replaced by a summary whose contract C04 discharges on the real function (counterexamples are re-solved with the exact definition before replay); times by contract (pair model) within NTP era 0; clock = arbitrary reading per call; metrics are no-ops; one other client materialised; pre-states restricted to the stated invariant (final exchanges have tx after rx; at most the exchange being updated is pending)."
+LEVEL_TEXT = "Bounded model checking of one inductive step of each of the two real operations (handleRequest, updateTXTimestamp, with the real container/heap and map code) from an arbitrary per-client record satisfying the representation invariant, an arbitrary request, arbitrary receive stamp and clock readings: every obligation (reply fields in basic and interleaved mode, uniqueness of receive stamps, recording/dropping of transmit stamps, isolation of other clients, absence of panics, loop unwinding) is decided by SMT. Records are bounded to 2 exchanges plus the at-capacity case (quick) / 4 exchanges for handleRequest and 8 for updateTXTimestamp (thorough)."
+LEVEL_NOTE = "handleRequest from an arbitrary record of up to 8 exchanges was tried (handle8) and left 5 obligations undecided at 600 s each, so it is not registered: the capacity case is covered by handlefull (record of exactly 8, receive stamp colliding with none), general records up to 4; Time64FromTime replaced by a summary whose contract C04 discharges on the real function (counterexamples are re-solved with the exact definition before replay); times by contract (pair model) within NTP era 0; clock = arbitrary reading per call; metrics are no-ops; one other client materialised; pre-states restricted to the stated invariant (final exchanges have tx after rx; at most the exchange being updated is pending)."
